@@ -221,6 +221,10 @@ impl EpochSnapshotManager {
 
         let mut inner = self.inner.lock().unwrap();
         let queue = inner.snapshots.entry(group_id.clone()).or_default();
+        // The same commit can be applied again at the same epoch (e.g. after the group was re-joined
+        // at an earlier epoch): storage then holds ONE snapshot under this name, so the queue must
+        // not hold two entries for it - pruning the older entry would release the shared snapshot.
+        queue.retain(|s| s.snapshot_name != snapshot_name);
         queue.push_back(snapshot);
 
         // Prune if needed (deferred slightly, or do it now)
